@@ -42,8 +42,8 @@ def shard(ctx, budget_s):
             req = smb.gen_request(rng)
             tr = rng.choice(["tcp", "tcp", "udp"])
             want = sigref.SMB1 if req["kind"].startswith("smb1") else sigref.SMB2
-            if lab.identified(req["payload"], tr) != want:
-                ctx.stats["skipped_matcher_disagreement"] += 1
+            if sigref.identify(req["payload"], tr == "udp") != want:
+                ctx.stats["skipped_not_smb_by_reference"] += 1
                 continue
             a = lab.ask(req["payload"], tr)
             errs = smb.check_response(a.rep, req)
